@@ -20,7 +20,7 @@ RULE = ("pipelines x segmentation (one read, per request, 1-byte, boundary insid
         "keep_alive_max_requests {1,2,3,1000} x Connection header spellings x HTTP version; non-trivial = at least two "
         "requests were sent on the connection or a must-close condition was present; distinct = distinct case hash")
 ASSUMPTIONS = ["announcing close when the only reason is an unread request body is not demanded (statement's list)"]
-MIN_DECISIVE = {"serial": 20, "no-interleave": 20, "body-isolation": 20, "must-close": 10, "reuse": 10, "aborted-stops-pipeline": 10}
+MIN_DECISIVE = {"serial": 20, "no-interleave": 20, "body-isolation": 20, "must-close": 10, "reuse": 10, "aborted-stops-pipeline": 10, "malformed-announces-close": 10}
 N_CASES = {"quick": 2500, "thorough": 60000}
 
 CONN_VALUES = [None, None, None, b"keep-alive", b"close", b"Close", b"CLOSE", b"keep-alive, close", b"foo, close", b"Keep-Alive"]
@@ -82,8 +82,36 @@ def _gen_aborted(rng, tier):
                "sched": {"seed": rng.randrange(1 << 30)}, "horizon": 100.0}
 
 
+def _gen_malformed(rng, tier):
+    """A pipeline in which request k has a valid head but a body that violates its framing: the requests before it are answered, request k
+    gets an error response announcing close, the connection closes, nothing behind it is processed."""
+    for i in range(120 if tier == "quick" else 3000):
+        nreq = rng.choice([1, 2, 3])
+        bad = rng.randrange(nreq)
+        base = 5500000 + i * 10
+        datas, by_tag = [], {}
+        for k in range(nreq + 1):  # one more request behind the malformed one
+            tag = base + k
+            by_tag[str(tag)] = _app(rng, tag, "after")
+            if k == bad:
+                good = b"".join(b"%x\r\n%s\r\n" % (n_, b"y" * n_) for n_ in [rng.choice([1, 5, 300]) for _ in range(rng.choice([0, 1, 3]))])
+                junk = rng.choice([b"zz\r\nab\r\n", b"5\r\nabcdefgh\r\n", b"-1\r\n", b"\r\n\r\n", b"5\nabcde\n", b"0x5\r\nabcde\r\n"])
+                datas.append(b"POST /t%d HTTP/1.1\r\nHost: h\r\nTransfer-Encoding: chunked\r\n\r\n" % tag + good + junk)
+            else:
+                datas.append(b"GET /t%d HTTP/1.1\r\nHost: h\r\n\r\n" % tag)
+        blob = b"".join(datas)
+        seg = rng.choice(["one", "k", "per_request"])
+        client = ([["feed_split", blob, [len(blob)]]] if seg == "one" else [["feed_split", blob, G.gen_splits(rng, len(blob), "k")]] if seg == "k"
+                  else [["feed", d] for d in datas]) + [["settle"]]
+        yield {"family": "malformed-body.%s" % seg, "backends": ["asyncio", "trio"], "config": {"keep_alive_timeout": 5000}, "conn": {},
+               "apps": {"default": [["recv_until_end"], ["respond", 200, [], b"d"]], "by_tag": by_tag}, "client": client,
+               "truth": {"kind": "malformed", "bad": bad, "tags": [base + k for k in range(nreq + 1)]},
+               "sched": {"seed": rng.randrange(1 << 30)}, "horizon": 100.0}
+
+
 def gen(rng, tier):
     yield from _gen_aborted(rng, tier)
+    yield from _gen_malformed(rng, tier)
     for i in range(N_CASES[tier]):
         nreq = rng.choice([1, 2, 2, 3, 4, 6])
         maxreq = rng.choice([1, 2, 3, 1000, 1000, 1000])
@@ -137,6 +165,8 @@ def nontrivial(case, obs):
     t = case["truth"]
     if t.get("kind") == "aborted":
         return any(e[2] == "net" and e[3] == "write_error" for e in obs.trace.events)
+    if t.get("kind") == "malformed":
+        return True
     return len(t["requests"]) > 1 or t["maxreq"] == 1 or any(wants_close(r) or r["version"] == "1.0" for r in t["requests"])
 
 
@@ -146,6 +176,32 @@ def check(case, obs, tally):
     reqs = t.get("requests")
     if obs.handler == "exception":
         tally.inconclusive["handler-crashed(C04)"] += 1
+        return out
+    if t.get("kind") == "malformed":
+        tally.clause("malformed-announces-close")
+        bad = t["bad"]
+        try:
+            resps, _ = h1.parse_responses(obs.outbytes, [("GET", "1.1")] * 8, obs.closed_at is not None)
+        except h1.Malformed as e:
+            out.append({"clause": "malformed-announces-close", "sig": "C06.malformed/unparseable-output", "detail": str(e)})
+            return out
+        done = [r for r in resps if r.complete]
+        if len(done) < bad or any(r.status != 200 for r in done[:bad]):
+            out.append({"clause": "malformed-announces-close", "sig": "C06.malformed/earlier-requests-not-answered",
+                        "detail": "%d requests precede the malformed one; complete responses: %r" % (bad, [r.status for r in done])})
+            return out
+        mine = done[bad] if len(done) > bad else None
+        toks = [x.strip().lower() for v in (mine.header(b"connection") if mine else []) for x in v.split(b",")]
+        if mine is None or not (400 <= mine.status < 500) or b"close" not in toks:
+            out.append({"clause": "malformed-announces-close", "sig": "C06.malformed/no-error-response-announcing-close",
+                        "detail": "request #%d has a valid head and a malformed body; the client got %r (headers %r)" % (
+                            bad + 1, mine.status if mine else None, mine.headers if mine else None)})
+        if obs.closed_at is None:
+            out.append({"clause": "malformed-announces-close", "sig": "C06.malformed/not-closed", "detail": "connection still open at quiescence"})
+        later = [e for e in obs.app_events(kind="start") if e[4]["scope"].get("path") == "/t%d" % t["tags"][bad + 1]]
+        if later or len(done) > bad + 1:
+            out.append({"clause": "malformed-announces-close", "sig": "C06.malformed/request-behind-processed",
+                        "detail": "the request pipelined behind the malformed one was processed"})
         return out
     if t.get("kind") == "aborted":
         lost = next((e for e in obs.trace.events if e[2] == "net" and e[3] == "write_error"), None)
